@@ -84,20 +84,21 @@ Theorem C04_deadlineinv_initial : forall unit off psize,
   0 < unit -> 0 < psize -> DsInv (dinit unit off psize).
 Proof. exact dsinv_init. Qed.
 
-(* preserved by add_sectors, record_proven_sectors, process_deadline_end, pop_expired_sectors,
-   terminate_sectors, record_faults, declare_faults_recovered, pop_early_terminations (and trivially
-   by allocate / assign).  PARTIAL: the preservation proof for compact_partitions is not done
-   (the operation is modelled and covered by the correspondence check and the monitors);
-   DeadlineExpInv (registration of partition expiration epochs in the deadline queue) is
-   defined in Model/DeadlineInv.v and checked by the monitors only. *)
-Theorem C04_deadlineinv_step_partial : forall st o,
-  DsInv st -> dop_wf st o -> not_compact o -> DsInv (dnext st o).
-Proof. exact dsinv_step_partial. Qed.
+(* preserved by EVERY deadline operation: add_sectors, record_proven_sectors, process_deadline_end,
+   pop_expired_sectors, terminate_sectors, record_faults, declare_faults_recovered,
+   compact_partitions, pop_early_terminations (and trivially by allocate / assign).
+   Not part of DeadlineInv: DeadlineExpInv (registration of partition expiration epochs in the
+   deadline's own queue, Model/DeadlineInv.v) is evaluated by the monitors only; it is NOT an
+   invariant of the functions for arbitrary arguments (process_deadline_end with a fault
+   expiration lower than an earlier one breaks it: work/c04/deadline_obs_decreasing_fault_expiration.json;
+   the actor always passes non-decreasing values). *)
+Theorem C04_deadlineinv_step : forall st o, DsInv st -> dop_wf st o -> DsInv (dnext st o).
+Proof. exact dsinv_step. Qed.
 
-Theorem C04_deadlineinv_reachable_partial : forall unit off psize ops,
-  0 < unit -> 0 < psize -> Forall not_compact ops -> dall_wf (dinit unit off psize) ops ->
+Theorem C04_deadlineinv_reachable : forall unit off psize ops,
+  0 < unit -> 0 < psize -> dall_wf (dinit unit off psize) ops ->
   DsInv (drun (dinit unit off psize) ops).
-Proof. exact dsinv_reachable_partial. Qed.
+Proof. exact dsinv_reachable. Qed.
 
 Theorem C04_sector_in_exactly_one_partition : forall qs tbl d n,
   DeadlineInv qs tbl d -> n ∈ dl_sectors d ->
@@ -144,3 +145,18 @@ Proof. vm_compute. repeat split. Qed.
 (* the caller obligations are satisfiable on that history, so the theorem applies to it *)
 Example C04_nonvacuous_inv : StInv (run (init 4 1) ex_ops).
 Proof. apply partinv_reachable; [reflexivity|]. apply all_wf_b_sound. vm_compute. reflexivity. Qed.
+
+(* ---- non-vacuity at deadline level: two partitions, a PoSt with a skipped sector, a declared
+   fault, a termination, early-termination processing and a compaction, all accepted ---- *)
+Definition ex_dsecs := [ex_mk 1%N 20 50 1000 3; ex_mk 2%N 30 51 1001 4; ex_mk 3%N 70 52 1002 5].
+Definition ex_dops :=
+  [DAllocate [1; 2; 3]%N false; DAddSectors false ex_dsecs; DRecordProven 40 [(0%N, [2]%N); (1%N, [])];
+   DProcessDeadlineEnd 44; DRecordFaults 48 [(1%N, [3]%N)]; DTerminate 9 [(0%N, [1]%N)];
+   DPopEarly 10 10; DCompact [0]%N; DAllocate [2]%N false].
+Example C04_deadline_nonvacuous :
+  let st := drun (dinit 4 1 2) ex_dops in
+  map (fun k => snd (fst (dstep (drun (dinit 4 1 2) (firstn k ex_dops)) (nth k ex_dops (DPopEarly 0 0)))))
+      (seq 0 9) = [0; 0; 0; 0; 0; 0; 0; 0; 16] /\
+  length (parts (ds_dl st)) = 2%nat /\ dl_live_sectors (ds_dl st) = 2 /\
+  dl_total_sectors (ds_dl st) = 2 /\ sorted (ds_alloc st) = [1; 2; 3]%N.
+Proof. vm_compute. repeat split. Qed.
